@@ -1019,7 +1019,7 @@ static void do_network(CMR* cmr)
  * nodes are 0..nv-1, edges are numbered in input order; the graph is built with CMRgraphAddNode/AddEdge and the
  * record uses the identifiers the library assigned.
  * record: signed graph nrev revIds hasForest [k ids] hasCoforest [k ids] rc correctForest hasM [csr] hasMt [csr] */
-static void do_repmat(CMR* cmr)
+static void repmat_common(CMR* cmr, bool roundtrip)
 {
   long long sgn = nx();
   size_t nv = nx(), ne = nx();
@@ -1073,6 +1073,63 @@ static void do_repmat(CMR* cmr)
     rc = CMRnetworkComputeMatrix(cmr, g, &M, &Mt, reversed, kf, forest, kc, coforest, (bool*) &cf);
   else
     rc = CMRgraphicComputeMatrix(cmr, g, &M, &Mt, kf, forest, kc, coforest, (bool*) &cf);
+  if (roundtrip)
+  {
+    /* C14: the constructed matrix goes through recognition and the returned graph through construction again
+     * record: signed rc correctForest hasM [csr M] rc2 verdict rc3 hasM2 [csr M2] */
+    unsigned char flag = 2, sflag = 2;
+    CMR_GRAPH* g2 = NULL;
+    CMR_GRAPH_EDGE* f2 = NULL;
+    CMR_GRAPH_EDGE* c2 = NULL;
+    bool* r2 = NULL;
+    CMR_CHRMAT* M2 = NULL;
+    CMR_ERROR rc2 = CMR_OKAY, rc3 = CMR_OKAY;
+    if (!rc && M)
+    {
+      if (sgn)
+        rc2 = CMRnetworkTestMatrix(cmr, M, (bool*) &flag, (bool*) &sflag, &g2, &f2, &c2, &r2, NULL, NULL, TL);
+      else
+        rc2 = CMRgraphicTestMatrix(cmr, M, (bool*) &flag, &g2, &f2, &c2, NULL, NULL, TL);
+      if (!rc2 && flag == 1 && g2)
+      {
+        if (sgn)
+          rc3 = CMRnetworkComputeMatrix(cmr, g2, &M2, NULL, r2, M->numRows, f2, M->numColumns, c2, NULL);
+        else
+          rc3 = CMRgraphicComputeMatrix(cmr, g2, &M2, NULL, M->numRows, f2, M->numColumns, c2, NULL);
+      }
+    }
+    rec_begin();
+    oi(sgn);
+    oi(rc);
+    oi(cf);
+    oi((!rc && M) ? 1 : 0);
+    if (!rc && M)
+      o_chr_csr(M);
+    oi(rc2);
+    oi(flag);
+    oi(rc3);
+    oi((!rc3 && M2) ? 1 : 0);
+    if (!rc3 && M2)
+      o_chr_csr(M2);
+    rec_end();
+    if (M2)
+      CMRchrmatFree(cmr, &M2);
+    if (g2)
+      CMRgraphFree(cmr, &g2);
+    if (f2)
+      CMRfreeBlockArray(cmr, &f2);
+    if (c2)
+      CMRfreeBlockArray(cmr, &c2);
+    if (r2)
+      CMRfreeBlockArray(cmr, &r2);
+    if (M)
+      CMRchrmatFree(cmr, &M);
+    if (Mt)
+      CMRchrmatFree(cmr, &Mt);
+    free(nodes); free(edges); free(reversed); free(revIdx); free(forest); free(coforest);
+    CMRgraphFree(cmr, &g);
+    return;
+  }
   rec_begin();
   oi(sgn);
   o_graph(g);
@@ -1109,6 +1166,9 @@ static void do_repmat(CMR* cmr)
   free(nodes); free(edges); free(reversed); free(revIdx); free(forest); free(coforest);
   CMRgraphFree(cmr, &g);
 }
+
+static void do_repmat(CMR* cmr) { repmat_common(cmr, false); }
+static void do_reprt(CMR* cmr) { repmat_common(cmr, true); }
 
 /* ---------- C09: Camion signing ---------- */
 
@@ -2242,12 +2302,13 @@ static struct
   {"matutil", do_matutil},        /* 19 */
   {"edgelist", do_edgelist},      /* 20 */
   {"leaf", do_leaf},              /* 21 */
+  {"reprt", do_reprt},            /* 22 */
   {"tlimit", do_tlimit},
   {"hist", do_hist},
   {"threads", do_threads},
   {NULL, NULL}
 };
-#define NUM_SUB_APIS 22
+#define NUM_SUB_APIS 23
 
 /* ---------- running a handler with its record captured in memory ---------- */
 
